@@ -76,7 +76,7 @@ pub fn spec_key_syn(t: &syn::Type) -> String {
 }
 
 /// impls of these types are told apart by their (concrete) type arguments
-const SPECIALISED: &[&str] = &["CmpWrapper"];
+const SPECIALISED: &[&str] = &["CmpWrapper", "StdParser"];
 
 fn specialised_name(t: &syn::Type, g: &syn::Generics) -> Option<String> {
     let base = type_name(t);
